@@ -7,27 +7,31 @@
   property, see DESIGN.md C02), NULL a distinguished cell.  `decode… (file… t)` is the composition
   "what `EncodeView` + the ending line break put into the file" ∘ "what the loader makes of it".
 
-  CSV / TSV.  The full statement is
+  CSV / TSV.  The statement that applies to the code (since /repo 3f80460, where `encodeCSV` marks
+  a field containing CR or LF for quoting; modelled by `o.quoteLB = true`, and re-probed on the real
+  writer on every run — the harness passes the observed rule to the model writer) is
 
-      csv_roundtrip : DelimOK o.delim → Spellable o t →
+      csv_roundtrip : DelimOK o.delim → o.quoteLB = true → Spellable o t →
                       ∃ b, fileCsv o t = ok b ∧ decodeCsv o b = ok (canon o t)
 
-  for the settings `o` csvq offers.  On the pinned code it FAILS in three ways, each confirmed on
-  the real code by the harness (law names in brackets) and witnessed below on the model:
-    (F12) a cell containing CR or LF is written unquoted          [roundtrip:csv:linebreak_in_cell]
-          → `csv_linebreak_counterexample`, `csv_linebreak_splits_silently`
-    (new) a record consisting of one empty field is dropped by the reader, also when it is
+  for every table and every setting, with `Spellable` = rectangular, ≥ 1 column, "no header ⇒ ≥ 1
+  row" (`DataEmpty` otherwise, `csv_refuse_empty`) and two exceptions that are defects of the
+  dependency's reader / of the ending line break, confirmed on the real code (law names in brackets)
+  and witnessed below on the model:
+    (F23) a record consisting of one empty field is dropped by the reader, also when it is
           spelled `""`                                             [roundtrip:csv:single_column_empty]
           → `csv_single_column_empty_counterexample`
-    (new) with --line-break CR the ending line break is a bare CR at end of input, on which the
+    (F24) with --line-break CR the ending line break is a bare CR at end of input, on which the
           reader fails (`UnreadRune` after a failed `ReadRune`)    [roundtrip:csv:cr_ending_line_break]
           → `csv_cr_ending_counterexample`
-  What IS proved, for all tables:
-    `csv_roundtrip`          the full statement for the writer that also quotes fields containing
-                             CR/LF (`o.quoteLB = true`, the repair of F12), with `Spellable`
-                             = rectangular, ≥ 1 column, "no header ⇒ ≥ 1 row", and the single-column
-                             and CR-ending exceptions above — nothing about the characters of a cell;
-    `csv_roundtrip_partial`  the same for the pinned writer under "no cell contains CR/LF".
+  `Spellable` says nothing about the characters of a cell.
+    `csv_roundtrip_partial`  is the same conclusion for ANY quoting rule (`quoteLB` arbitrary) under
+                             "no cell contains CR/LF";
+    `csv_linebreak_counterexample`, `csv_linebreak_splits_silently` are facts about the OLD writer
+                             (`quoteLB = false`, before 3f80460; F12): they show what a regression of
+                             the quoting would do, and the harness would report it as
+                             roundtrip:csv:linebreak_in_cell plus a model/implementation difference
+                             only if the probe and the encoder disagreed.
 -/
 import Csvq.Lemmas.Csv
 import Csvq.Lemmas.CsvRect
@@ -162,8 +166,8 @@ theorem csv_roundtrip_detect (o : Opts) (t : Table) (hd : DelimOK o.delim) (hs :
         cases rs <;> rfl
 
 /-- **Round trip, full statement** — for every table and every setting, with the writer that quotes
-    a field containing CR or LF (`quoteLB`, the repair of F12): what is written loads back as
-    `canon o t`.  `Spellable` says nothing about the characters in a cell. -/
+    a field containing CR or LF (`quoteLB = true`: the code since /repo 3f80460): what is written
+    loads back as `canon o t`.  `Spellable` says nothing about the characters in a cell. -/
 theorem csv_roundtrip (o : Opts) (t : Table) (hd : DelimOK o.delim) (hq : o.quoteLB = true)
     (hs : Spellable o t) :
     ∃ b, fileCsv o t = .ok b ∧ decodeCsv o b = .ok (canon o t) := by
@@ -171,8 +175,8 @@ theorem csv_roundtrip (o : Opts) (t : Table) (hd : DelimOK o.delim) (hq : o.quot
     (fun _ _ g _ => fieldOK_of_quoteLB o.w g hq)
   exact ⟨b, h1, h2⟩
 
-/-- **Round trip on the pinned code** (`quoteLB` arbitrary, in particular `false`): the same
-    conclusion when no written header name and no cell contains CR or LF. -/
+/-- **Round trip for any quoting rule** (`quoteLB` arbitrary, in particular the old writer `false`):
+    the same conclusion when no written header name and no cell contains CR or LF. -/
 theorem csv_roundtrip_partial (o : Opts) (t : Table) (hd : DelimOK o.delim) (hn : NoLineBreaks o t)
     (hs : Spellable o t) :
     ∃ b, fileCsv o t = .ok b ∧ decodeCsv o b = .ok (canon o t) := by
@@ -267,11 +271,15 @@ theorem csv_refuse_empty (o : Opts) (t : Table) (hw : o.withoutHeader = true) (h
     fileCsv o t = .error .dataEmpty := by
   simp [fileCsv, encodeCsv, hw, hr]
 
-/-! ### the pinned code violates the full statement: witnesses on the model of the current code
+/-! ### witnesses on the model: the two remaining exceptions of the current code
+(`csv_single_column_empty_counterexample`, `csv_cr_ending_counterexample`, both with the current
+quoting rule), and what the OLD writer (`quoteLB = false`, before /repo 3f80460) did with a line
+break inside a cell (`csv_linebreak_*`).
 
 Texts are spelled as character lists: `a,b⏎x⏎y,2` is `['a', ',', 'b', '\\n', …]`. -/
 
-/-- F12: header `a,b`, record (`x⏎y`, 2) is written as `a,b⏎x⏎y,2`; the loader rejects the file. -/
+/-- F12 (old writer, `quoteLB = false`): header `a,b`, record (`x⏎y`, 2) is written as `a,b⏎x⏎y,2`;
+    the loader rejects the file. -/
 theorem csv_linebreak_counterexample :
     let o : Opts := {}
     let t : Table := ⟨[['a'], ['b']], [[.str ['x', '\n', 'y'], .raw ['2']]]⟩
@@ -279,7 +287,7 @@ theorem csv_linebreak_counterexample :
     fileCsv o t = .ok ['a', ',', 'b', '\n', 'x', '\n', 'y', ',', '2'] ∧ decodeCsv o ['a', ',', 'b', '\n', 'x', '\n', 'y', ',', '2'] = .error .parse := by
   refine ⟨by decide, by decide, rfl, rfl⟩
 
-/-- F12, silent variant: a single column with the cell `x⏎y` comes back as TWO records. -/
+/-- F12 (old writer), silent variant: a single column with the cell `x⏎y` comes back as TWO records. -/
 theorem csv_linebreak_splits_silently :
     let o : Opts := {}
     let t : Table := ⟨[['a']], [[.str ['x', '\n', 'y']]]⟩
